@@ -4,12 +4,16 @@ import copy
 
 OUTCOMES = ['done', 'failedRet', 'raises', 'retNone', 'notPair', 'badStatus', 'badUpdate',
             # variants of the classes above (mapped onto them for the model, see MODEL_OUTCOME)
-            'sysExit', 'retWaiting', 'retPending', 'clobberOwn', 'badUpdateEmptyList', 'badUpdateZero', 'badUpdateEmptyStr']
+            'sysExit', 'retWaiting', 'retPending', 'clobberOwn', 'badUpdateEmptyList', 'badUpdateZero', 'badUpdateEmptyStr',
+            'raisingIterable', 'ownReadOnly']
 # the model has one constructor per class of outcome; the concrete variants generated here are mapped onto their class:
 # an exception that is not an `Exception` (SystemExit) is a raising task, a status that is not a final one is a bad
 # status, an update that replaces the task's own entry by something that is not a mapping is a bad update
 MODEL_OUTCOME = {'sysExit': 'raises', 'retWaiting': 'badStatus', 'retPending': 'badStatus', 'clobberOwn': 'badUpdate',
-                 'badUpdateEmptyList': 'badUpdate', 'badUpdateZero': 'badUpdate', 'badUpdateEmptyStr': 'badUpdate'}
+                 'badUpdateEmptyList': 'badUpdate', 'badUpdateZero': 'badUpdate', 'badUpdateEmptyStr': 'badUpdate',
+                 # a result whose unpacking raises something else than TypeError / ValueError is not a pair; an own entry
+                 # that cannot be written to (read-only mapping) cannot be recorded: a bad update
+                 'raisingIterable': 'notPair', 'ownReadOnly': 'badUpdate'}
 CORRESPONDS = ('Model/Sched.lean (init, step, enabled, decide, terminal) vs valjean.cosette.backends.queue.QueueScheduling + '
                'valjean.cosette.env.Env under the controlled scheduler (harness/vcheck/ctlsched.py): the recorded schedule is '
                'replayed in the model; environment, queue, counters, what every task saw when it started and the set of enabled '
@@ -81,6 +85,12 @@ def gen(rng, tier, profile):
             if rng.random() < 0.4:
                 regraph(rng, nxt)
             rounds.append(nxt)
+        if n >= 2 and not rounds[-1]['cyclic'] and rng.random() < 0.12:
+            # in the last call, a task whose (well-formed) update overwrites the entry of *another* task with a number:
+            # whatever the victim is doing at that time, the call must come back (returning or raising) and leave nothing
+            # behind; the model has no such update, only the C03 clauses are checked on these cases
+            a, b = rng.sample(range(n), 2)
+            rounds[-1]['clobber'] = [a, b]
     if profile in ('C01', 'C02') and rng.random() < 0.25:
         # the backend object serves a second job: same task names, another graph, a new empty environment
         nxt = gen_round(rng, n, deps, hard, profile)
@@ -155,6 +165,8 @@ def shrink(case):
 def entry_digest(sub):
     if sub is None:
         return None
+    if not hasattr(sub, 'get'):
+        return [-2, None, None, None]       # an entry overwritten with something that is not a mapping
     status = sub.get('status')
     try:
         code = int(status)
@@ -204,6 +216,8 @@ def run_rounds(case, sched_override=None):
             version = st['ctl'].clock
             out = st['out'][self.idx]
             update = {self.name: {'result': version}, 'shared': {self.name: version}}
+            if st.get('clobber') and st['clobber'][0] == self.idx:
+                update[f"t{st['clobber'][1]}"] = 5
             if out == 'done':
                 return update, TaskStatus.DONE
             if out == 'failedRet':
@@ -232,6 +246,14 @@ def run_rounds(case, sched_override=None):
                 return 0, TaskStatus.DONE
             if out == 'badUpdateEmptyStr':
                 return '', TaskStatus.DONE
+            if out == 'raisingIterable':
+                def boom():
+                    raise RuntimeError('scripted failure while the result is unpacked')
+                    yield None      # pylint: disable=unreachable
+                return boom()
+            if out == 'ownReadOnly':
+                import types
+                return {self.name: types.MappingProxyType({'result': version})}, TaskStatus.DONE
             raise ValueError(out)
 
     observations = []
@@ -240,7 +262,8 @@ def run_rounds(case, sched_override=None):
     clock = 0
     for ri, rnd in enumerate(case['rounds']):
         n = rnd['n']
-        state = {'exec': [0] * n, 'seen': [None] * n, 'deps': rnd['deps'], 'out': rnd['out'], 'ctl': None, 'order': []}
+        state = {'exec': [0] * n, 'seen': [None] * n, 'deps': rnd['deps'], 'out': rnd['out'], 'ctl': None, 'order': [],
+                 'clobber': rnd.get('clobber')}
         tasks = [Probe(i, state) for i in range(n)]
         hard_graph, soft_graph = DepGraph(), DepGraph()
         for t in tasks:
@@ -383,6 +406,8 @@ def run_model(case, driver, run, impl=None):
 
 def compare(case, impl, model):
     from vcheck.runner import first_diff
+    if any(rnd.get('clobber') for rnd in case['rounds']):
+        return None       # not a behaviour of the model: oracle clauses only
     for ri, (obs, rep) in enumerate(zip(impl['rounds'], model['rounds'])):
         if '!driver-error' in rep:
             return f"round {ri}: driver error {rep['!driver-error']}"
@@ -490,7 +515,7 @@ def oracle_c03(case, impl, run):
             fails.append(('clean_exit', f'round {ri}: queue {obs["queue_end"]}, unfinished_tasks {obs["unfinished_end"]} after the call'))
         if rnd['cyclic'] and obs['error'] != 'DepGraphError':
             fails.append(('raises_iff_cyclic', f'round {ri}: cyclic graph, got {obs["error"]} / returned={obs["returned"]}'))
-        if not rnd['cyclic'] and not obs['returned']:
+        if not rnd['cyclic'] and not obs['returned'] and not any(r.get('clobber') for r in case['rounds'][:ri + 1]):
             fails.append(('raises_iff_cyclic', f'round {ri}: acyclic graph but the call raised {obs["error"]}'))
     return fails
 
